@@ -1,11 +1,14 @@
 /-
   C15 — Values map to legend colours monotonically and legends describe their data.
-  Property theorems only (helper lemmas: Proofs/C15Lemmas.lean).
+  Property theorems only (helper lemmas: Proofs/C15Lemmas.lean, Proofs/C15Obj.lean).
+  Round 3: object state machines (Model/C15Obj.lean) for histories on one ColorRange / parameters
+  object / legend; theorems C15_refused_preserves, C15_read_pure, C15_history_refines_fresh at the end.
   The model (Model/Color.lean, Model/Legend.lean) is tied to ladybug/color.py and legend.py by the
   correspondence ops of Drv/C15.lean (harness/props/c15.py).  Numbers are exact rationals; the
   float-vs-exact gap is measured by the correspondence run, not proved.
 -/
 import Ladybug.Proofs.C15Lemmas
+import Ladybug.Proofs.C15Obj
 
 namespace Col
 
@@ -744,3 +747,126 @@ example : exPlain.map (fun l => l.textPoints.length) = .ok 6 := by decide +kerne
 example : exPlain.map (fun l => l.segmentLength) = .ok 6 := by decide +kernel
 
 end Leg
+
+namespace Obj15
+
+open Col Leg
+
+/-! ## Histories on one object (Model/C15Obj.lean) -/
+
+/-- A refused operation leaves the object as it was: when a step of the colour-range machine or of
+    the parameters/legend session answers `refused` (the setter, constructor or copy raised), the
+    state after the step is the state before it — hence every later observation (colours, segment
+    numbers, labels, value colours, mesh) is what it would have been without the refused call. -/
+theorem C15_refused_preserves :
+    (∀ (cr : ColorRange) (op : CROp) (e : Rej),
+      (crStep cr op).2 = .refused e → (crStep cr op).1 = cr) ∧
+    (∀ (s : Sess) (op : LOp) (e : Rej),
+      (lStep s op).2 = .refused e → (lStep s op).1 = s) := by
+  constructor
+  · intro cr op e h
+    cases op with
+    | setColors cols => simp only [crStep] at h ⊢; split <;> simp_all
+    | setDomain dom => simp only [crStep] at h ⊢; split <;> simp_all
+    | readColor v => rfl
+    | readState => rfl
+    | duplicate => simp only [crStep] at h ⊢; split <;> simp_all
+  · intro s op e h
+    cases op with
+    | setP f => simp only [lStep] at h ⊢; split <;> simp_all
+    | setL f =>
+      simp only [lStep] at h ⊢
+      split
+      · rfl
+      · split <;> simp_all
+    | build vals => simp only [lStep] at h ⊢; split <;> simp_all
+    | buildG x0 y0 x1 y1 vals => simp only [lStep] at h ⊢; split <;> simp_all
+    | obsL => simp only [lStep] at h ⊢; split <;> rfl
+    | obsP => rfl
+    | dupP => rfl
+    | dupL =>
+      simp only [lStep] at h ⊢
+      split
+      · rfl
+      · split <;> simp_all
+    | dictP => simp [lStep] at h
+    | dictL =>
+      simp only [lStep] at h ⊢
+      split
+      · rfl
+      · split <;> simp_all
+
+/-- Reads are pure: reading a colour, the public state, the legend's observables or the parameters
+    changes nothing, so reads can be repeated and re-ordered freely — the answer of a read does not
+    depend on which reads came before it. -/
+theorem C15_read_pure :
+    (∀ (cr : ColorRange) (op : CROp), op.isRead = true → (crStep cr op).1 = cr) ∧
+    (∀ (s : Sess) (op : LOp), op.isRead = true → (lStep s op).1 = s) ∧
+    (∀ (s : Sess) (r1 r2 : LOp), r1.isRead = true → r2.isRead = true →
+      (lStep (lStep s r1).1 r2).2 = (lStep s r2).2 ∧ (lStep (lStep s r2).1 r1).2 = (lStep s r1).2) := by
+  have hl : ∀ (s : Sess) (op : LOp), op.isRead = true → (lStep s op).1 = s := by
+    intro s op h
+    cases op with
+    | obsL => simp only [lStep]; split <;> rfl
+    | obsP => rfl
+    | setP f => simp [LOp.isRead] at h
+    | setL f => simp [LOp.isRead] at h
+    | build vals => simp [LOp.isRead] at h
+    | buildG x0 y0 x1 y1 vals => simp [LOp.isRead] at h
+    | dupP => simp [LOp.isRead] at h
+    | dupL => simp [LOp.isRead] at h
+    | dictP => simp [LOp.isRead] at h
+    | dictL => simp [LOp.isRead] at h
+  refine ⟨?_, hl, ?_⟩
+  · intro cr op h
+    cases op with
+    | readColor v => rfl
+    | readState => rfl
+    | setColors cols => simp [CROp.isRead] at h
+    | setDomain dom => simp [CROp.isRead] at h
+    | duplicate => simp [CROp.isRead] at h
+  · intro s r1 r2 h1 h2
+    rw [hl s r1 h1, hl s r2 h2]
+    exact ⟨rfl, rfl⟩
+
+/-- History refines fresh (plain `LegendParameters`): start from any parameters the constructor
+    accepts, run ANY history of session operations — accepted and refused assignments to the
+    parameters or to the live legend's parameters, builds of legends and graphic containers,
+    duplicates, dictionary round trips, reads, in any order and number.  The parameters object then
+    equals the object built in one go (constructor + setters) from its final public attributes, so
+    every legend built from it — and every segment number, label, colour, value colour and mesh of
+    that legend — is the one a fresh object with the same public state gives.  There is no hidden
+    state a history could leave behind.
+    Not covered by this theorem (compared step by step by the `lhist` / `crhist` correspondence and
+    judged by the history oracle only): categorised parameters, the live legend's own parameters
+    (a defaulted segment count resolved to 1 is kept by later assignments), colour-range objects. -/
+theorem C15_history_refines_fresh (mn mx : Option Rat) (sc : Option Nat) (cols : Option (List RGB))
+    (cl vert : Bool) (dc : Nat) (ils : Bool) (ord : Option (List (Int × String)))
+    (sh sw th : Option Rat) (p0 : Par)
+    (hp : Par.mkPlain mn mx sc cols cl vert dc ils ord sh sw th = .ok p0)
+    (live : Option Live) (ops : List LOp) :
+    freshPlain (lRun ⟨p0, live⟩ ops).1.par = .ok (lRun ⟨p0, live⟩ ops).1.par ∧
+    ∀ vals : List Rat,
+      (freshPlain (lRun ⟨p0, live⟩ ops).1.par).bind (Legend.make vals) =
+        Legend.make vals (lRun ⟨p0, live⟩ ops).1.par := by
+  have wf := lRun_par_wf ops ⟨p0, live⟩ (mkPlain_wf hp)
+  have h := freshPlain_eq _ wf
+  refine ⟨h, ?_⟩
+  intro vals
+  rw [h]
+  rfl
+
+/-! Non-vacuity: a rejected minimum, a rejected colour list and a re-coloured range. -/
+
+private def p010 : Par :=
+  match Par.mkPlain (some 0) (some 10) (some 6) none false true 2 false none none none none with
+  | .ok p => p
+  | .error _ => ⟨none, none, 0, false, [], false, false, 0, false, none, none, none, none, none⟩
+
+example : (lStep ⟨p010, none⟩ (.setP (.min (some 50)))).1.par = p010 := by decide +kernel
+example : (parSet p010 (.colors (some [⟨1, 2, 3⟩]))).toOption = none := by decide +kernel
+example : (parSet p010 (.min (some 10))).toOption.map (·.min) = some (some 10) := by decide +kernel
+example : ((lRun ⟨p010, none⟩ [.setP (.min (some 50)), .build [0, 5, 10], .setL (.max (some (-5))),
+    .obsL]).1.live.map (fun o => (o.par.min, o.par.max))) = some (some 0, some 10) := by decide +kernel
+
+end Obj15
